@@ -8,15 +8,23 @@ import (
 	rsql "github.com/rqlite/sql"
 )
 
-// C14(a): the substring pre-filter of Process. For every text (<= 40 ASCII bytes) of a region of
-// "statements SQLite evaluates non-deterministically because they call one of the nine functions"
-// Process must hand the text to the parser (it must not `continue` past it).
+// C14(a): the substring pre-filter of Process. For every text of a family of "statements SQLite
+// evaluates non-deterministically because they call one of the nine functions" Process must hand
+// the text to the parser (it must not `continue` past it).
 //
-// The regions are written from SQLite's tokenizer and expression grammar, not from the filter:
-//   * function names are identifiers: ASCII case-insensitive, may be quoted ("x", [x], `x`);
+// The family is written from SQLite's tokenizer and expression grammar, not from the filter:
+//   * keywords and function names are ASCII case-insensitive; a function name is an identifier
+//     and may be quoted ("x", [x], `x`);
 //   * white space ([ \t\n\f\r]) and comments (/*..*/, --..\n) may separate any two tokens, in
 //     particular the function name and its '(';
 //   * date/time functions: the time value 'now' (case-insensitive) reads the clock.
+//
+// Two encodings of the family:
+//   * byte vectors (all tiers): the text is generated token by token; the case of every letter,
+//     every white-space byte and every comment byte is symbolic, the shape (function, kind and
+//     length of the separator, quoting) is enumerated;
+//   * solver-level strings constrained by regular expressions (thorough tier), which also cover
+//     every mixture of separator lengths in one query.
 //
 // In the engine the parser is replaced by a model that records the call and fails (so Process
 // takes its `continue` after the parser): "parser reached" is the observation. Natively the real
@@ -33,6 +41,205 @@ func verifC14ParseStatement(p *rsql.Parser) (rsql.Statement, error) {
 	verifC14Parsed++
 	return nil, errors.New("verif: parser not modelled")
 }
+
+var verifFns = []string{"date", "time", "datetime", "julianday", "unixepoch", "strftime", "timediff", "random", "randomblob"}
+
+const verifNTime = 7 // the first seven read the clock, the last two the random generator
+
+// ---------------------------------------------------------------------------------------------
+// byte-vector generator
+
+type verifText struct {
+	b    []byte
+	pool []byte
+	next int
+	ok   bool // conjunction of the constraints on the symbolic bytes (assumed once, by done)
+}
+
+func (t *verifText) done() string { verifAssume(t.ok); return string(t.b) }
+
+func (t *verifText) sym() byte { c := t.pool[t.next]; t.next++; return c }
+func (t *verifText) lit(s string) {
+	t.b = append(t.b, s...)
+}
+
+// word appends s with the case of every letter left to the solver.
+func (t *verifText) word(s string) {
+	for i := 0; i < len(s); i++ {
+		c := t.sym()
+		t.ok = verifAnd(t.ok, c|0x20 == s[i])
+		t.b = append(t.b, c)
+	}
+}
+
+// ws appends n white-space bytes (SQLite: space, \t, \n, \f, \r).
+func (t *verifText) ws(n int) {
+	for i := 0; i < n; i++ {
+		c := t.sym()
+		t.ok = verifAnd(t.ok, verifOr(verifOr(verifOr(c == ' ', c == '\t'), verifOr(c == '\n', c == '\f')), c == '\r'))
+		t.b = append(t.b, c)
+	}
+}
+
+// filler appends n comment bytes: printable ASCII except '*' and '/' (so a block comment does
+// not end early).
+func (t *verifText) filler(n int) {
+	for i := 0; i < n; i++ {
+		c := t.sym()
+		t.ok = verifAnd(t.ok, verifAnd(verifAnd(c >= ' ', c <= '~'), verifAnd(c != '*', c != '/')))
+		t.b = append(t.b, c)
+	}
+}
+
+// gap kinds: 0 none; 1..3 white space of that length; 4..6 block comment with 0..2 bytes;
+// 7..9 line comment with 0..2 bytes
+const verifNGap = 10
+
+func (t *verifText) gap(g int) {
+	switch {
+	case g == 0:
+	case g <= 3:
+		t.ws(g)
+	case g <= 6:
+		t.lit("/*")
+		t.filler(g - 4)
+		t.lit("*/")
+	default:
+		t.lit("--")
+		t.filler(g - 7)
+		t.lit("\n")
+	}
+}
+
+func (t *verifText) now() { t.lit("'"); t.word("now"); t.lit("'") }
+
+// verifGen builds `<pad>SELECT<ws><name><gap>(<args>)<pad>[;]`.
+func verifGen(f, g, q, pad, variant int) string {
+	t := &verifText{pool: verifBytes("t", 64), ok: true}
+	t.ws(pad)
+	t.word("select")
+	t.ws(1)
+	open, close := "", ""
+	switch q {
+	case 1:
+		open, close = `"`, `"`
+	case 2:
+		open, close = "[", "]"
+	case 3:
+		open, close = "`", "`"
+	}
+	t.lit(open)
+	t.word(verifFns[f])
+	t.lit(close)
+	t.gap(g)
+	t.lit("(")
+	t.ws(pad)
+	switch verifFns[f] {
+	case "strftime":
+		t.lit([]string{"'%s',", "'%Y',", "'%J',"}[variant%3])
+		t.ws(pad)
+		t.now()
+	case "timediff":
+		if variant%2 == 0 {
+			t.now()
+			t.lit(",'2000-01-01'")
+		} else {
+			t.lit("'2000-01-01',")
+			t.now()
+		}
+	case "random":
+	case "randomblob":
+		c := t.sym()
+		t.ok = verifAnd(t.ok, verifAnd(c >= '1', c <= '9'))
+		t.b = append(t.b, c)
+	default:
+		t.now()
+	}
+	t.ws(pad)
+	t.lit(")")
+	if variant%2 == 1 {
+		t.lit(";")
+	}
+	return t.done()
+}
+
+func verifC14Check(s string, f int, name, finding string) {
+	rwrand, rwtime := verifBool("rwrand"), verifBool("rwtime")
+	if f < verifNTime {
+		verifAssume(rwtime)
+	} else {
+		verifAssume(rwrand)
+	}
+	verifC14Parsed = 0
+	st := []*proto.Statement{{Sql: s}}
+	err := Process(st, rwrand, rwtime)
+	verifAssert("C14-process-no-error", err == nil)
+	if verifSymbolic() {
+		if verifC14Parsed > 0 {
+			verifReach("parser-reached-" + name)
+			return
+		}
+	} else {
+		// native replay: real parser and rewriter. The witness counts only if the text comes
+		// back unchanged and SQLite really evaluates it non-deterministically.
+		if st[0].Sql != s {
+			return
+		}
+		if nd, _ := verifC14Nondet(s); !nd {
+			return
+		}
+	}
+	if finding != "" {
+		verifFinding(finding)
+	}
+	verifAssert("C14-filter-covers-"+name, false)
+}
+
+// name directly followed by '(' : must reach the parser
+func VerifC14FilterBaseline() {
+	f := verifChoice("fn", len(verifFns))
+	s := verifGen(f, 0, 0, verifChoice("pad", 2), verifChoice("variant", 2+verifTier()*4))
+	verifC14Check(s, f, verifFns[f]+"(", "")
+}
+
+// white space or a comment between the name and '('
+func VerifC14FilterGap() {
+	f := verifChoice("fn", len(verifFns))
+	var g int
+	if verifTier() == 0 {
+		g = []int{1, 3, 4, 6, 8}[verifChoice("gap", 5)]
+	} else {
+		g = 1 + verifChoice("gap", verifNGap-1)
+	}
+	s := verifGen(f, g, 0, verifChoice("pad", 1+verifTier()), verifChoice("variant", 1+verifTier()))
+	verifReach("gap-generated")
+	verifC14Check(s, f, "gap before paren", "C14-filter-gap-before-paren")
+}
+
+// quoted function name
+func VerifC14FilterQuoted() {
+	f := verifChoice("fn", len(verifFns))
+	q := 1 + verifChoice("quote", 3)
+	s := verifGen(f, 0, q, verifChoice("pad", 1+verifTier()), verifChoice("variant", 1+verifTier()))
+	verifReach("quoted-generated")
+	verifC14Check(s, f, "quoted name", "C14-filter-quoted-function-name")
+}
+
+// Twin: a text that mentions a function name without calling it need not reach the parser;
+// asserting that it does must be violated.
+func VerifC14FilterTwin() {
+	t := &verifText{pool: verifBytes("t", 64), ok: true}
+	t.word("select")
+	t.ws(1)
+	t.word("date")
+	verifC14Parsed = 0
+	st := []*proto.Statement{{Sql: t.done()}}
+	Process(st, true, true)
+	verifAssert("twin", verifC14Parsed > 0)
+}
+
+// ---------------------------------------------------------------------------------------------
+// regular-expression regions over solver-level strings (thorough tier)
 
 const (
 	vWS   = `[ \t\n\f\r]`
@@ -94,54 +301,15 @@ func verifC14Region(k int) {
 	s := verifString("sql", 40)
 	verifAssume(verifASCII.MatchString(s))
 	verifAssume(r.re.MatchString(s))
-	rwrand, rwtime := verifBool("rwrand"), verifBool("rwtime")
-	if r.time {
-		verifAssume(rwtime)
-	} else {
-		verifAssume(rwrand)
-	}
 	verifReach("region-nonempty-" + r.name)
-
-	verifC14Parsed = 0
-	st := []*proto.Statement{{Sql: s}}
-	err := Process(st, rwrand, rwtime)
-	verifAssert("C14-process-no-error", err == nil)
-	if verifSymbolic() {
-		if verifC14Parsed > 0 {
-			verifReach("parser-reached-" + r.name)
-			return
-		}
-	} else {
-		// native replay: real parser and rewriter. The witness counts only if the text comes
-		// back unchanged and SQLite really evaluates it non-deterministically.
-		if st[0].Sql != s {
-			return
-		}
-		if nd, _ := verifC14Nondet(s); !nd {
-			return
-		}
+	f := verifNTime
+	if r.time {
+		f = 0
 	}
-	if r.finding != "" {
-		verifFinding(r.finding)
-	}
-	verifAssert("C14-filter-covers-"+r.name, false)
+	verifC14Check(s, f, "re "+r.name, r.finding)
 }
 
-func VerifC14FilterBaseline() { verifC14Region(verifChoice("region", verifNBase)) }
-func VerifC14FilterForms() {
+func VerifC14FilterReBaseline() { verifC14Region(verifChoice("region", verifNBase)) }
+func VerifC14FilterReForms() {
 	verifC14Region(verifNBase + verifChoice("form", len(verifRegions)-verifNBase))
 }
-
-// Twin: a text that mentions a function name without calling it need not reach the parser;
-// asserting that it does must be violated.
-func VerifC14FilterTwin() {
-	s := verifString("sql", 24)
-	verifAssume(verifASCII.MatchString(s))
-	verifAssume(verifTwinRe.MatchString(s))
-	verifC14Parsed = 0
-	st := []*proto.Statement{{Sql: s}}
-	Process(st, true, true)
-	verifAssert("twin", verifC14Parsed > 0)
-}
-
-var verifTwinRe = regexp.MustCompile(`^(?i:SELECT)` + vWS + `+(?i:random|date)` + vWS + `*$`)
